@@ -41,7 +41,8 @@ PROPS["C01"] = {
             "with an observable Tag. A case is NON-TRIVIAL iff it contains a monotone run of >=8 inserts or a drain "
             "below half of the peak size, AND a removal of a node with two children followed by a lookup. Distinct = "
             "distinct canonical JSON of the case (64-bit hash), unioned over shards. "
-            "Macro op prune: remove every key (or every other key) that is not on the path from the root to a deepest leaf, so the size shrinks while the height stays.",
+            "Macro op prune: remove every key (or every other key) that is not on the path from the root to a deepest leaf, so the size shrinks while the height stays. "
+            "ELEMENT KINDS: about half of the cases instantiate the tree with the struct type Key; the others use int, string, an 88-byte comparable struct, *Cell (a new pointer per call, deeply equal pointees), any holding *Cell, or []byte. Elements are converted at the API boundary while the reference stays in ints. Where the kind carries an identity, the element held must be the very one supplied by the successful Add or latest Replace (a Get after each checks it). Probes (Get/Remove/Cursor arguments) are equivalent but not identical elements. For int and string, half of the cases use a comparison that is the reverse of the type's natural order.",
     "assumptions": COMMON_ASSUME + ["the comparator is a valid total preorder on one struct key type"],
 }
 
@@ -56,7 +57,8 @@ PROPS["C02"] = {
             "the tree came within one level of its bound at some step, or a delete-side whole-tree rebuild happened "
             "(by a shadow of the documented rule, used for labelling only). leg newheight: New(n distinct keys) for "
             "every n up to a bound and beta in {0,250,999}: height == floor(log2 n); non-trivial = n is a power of "
-            "two or one less.",
+            "two or one less. "
+            "Element kinds as in C01 (the depth and comparison bounds are independent of the element type); the newheight leg adds one case per n cycling through the kinds.",
     "assumptions": COMMON_ASSUME,
 }
 
@@ -72,7 +74,8 @@ PROPS["C03"] = {
             "(d) up to 60 random moves (left/right/up/min/max/next/prev/goto/clone/switch/inorder-with-stop) on two "
             "cursors tracked against the reconstructed shape, both cursors observed after every move (clone "
             "independence); (e) nil and invalidated cursors are no-ops yielding the zero key. NON-TRIVIAL iff the tree "
-            "has height >= 4 and some node's successor is a proper ancestor >= 2 levels up. Distinct = hash of the case JSON.",
+            "has height >= 4 and some node's successor is a proper ancestor >= 2 levels up. Distinct = hash of the case JSON. "
+            "Element kinds as in C01; cursor probes carry a different identity from the stored key.",
     "assumptions": COMMON_ASSUME,
 }
 
@@ -94,7 +97,8 @@ PROPS["C04"] = {
             "-0.0, 0.0 and ordinary values; Set/Delete/GetOK/Seek, Len, Keys and a First..Next sweep after every op against "
             "a reference ordered by cmp.Compare (NaN equals itself and sorts first, -0 equals +0); non-trivial = a NaN key "
             "was used in a history of >=4 ops. Distinct = hash of the case JSON. "
-            "leg str: omap.Map[string,string] (New or NewFunc(strings.Compare), started from the zero Map in a quarter of the cases) over 20 hostile strings as keys AND values ('', ' ', ' a', 'a ', tab, 'b\\n', invalid UTF-8, CR, VT ...): Set/Delete/Get/GetOK/Seek/Last+Prev walk/Clear, and after every step Len, Keys, the First..Next iteration and String() == 'omap[' + the k:v pairs separated by one space + ']'; on the zero Map only the operations its documentation lists. NON-TRIVIAL (leg str) iff at some step the first key or the last value is empty or has outer white space.",
+            "leg str: omap.Map[string,string] (New or NewFunc(strings.Compare), started from the zero Map in a quarter of the cases) over 20 hostile strings as keys AND values ('', ' ', ' a', 'a ', tab, 'b\\n', invalid UTF-8, CR, VT ...): Set/Delete/Get/GetOK/Seek/Last+Prev walk/Clear, and after every step Len, Keys, the First..Next iteration and String() == 'omap[' + the k:v pairs separated by one space + ']'; on the zero Map only the operations its documentation lists. NON-TRIVIAL (leg str) iff at some step the first key or the last value is empty or has outer white space. "
+            "ELEMENT KINDS: leg hist also instantiates the key type with int, string, int16, an 88-byte struct, *Cell, any and []byte, using omap.New for the ordered ones when the comparison is the natural one and NewFunc otherwise; half of those cases put their keys at the ends of the key type's range (MinInt.., around 0, ..MaxInt, so that differences overflow). Value types: int, string, *Cell, *Label (pointer-receiver String method) and a struct that is both fmt.Formatter and fmt.Stringer; Sets sometimes store the zero value (nil pointer, empty string, 0) and sometimes a new value equal to the one held. Values are compared by identity where the kind has one, and String() must equal the %v:%v rendering of the same keys and values (a panic in String is a violation).",
     "assumptions": COMMON_ASSUME + ["under the k/2 comparator only comparator-equivalence of reported keys is required, not which representative is stored"],
 }
 
@@ -527,8 +531,9 @@ PROPS["C11"] = {
             "as sequences of values; counted by an independent next-occurrence DP that was validated against brute force) "
             "- the ambiguous alignments. Distinct = distinct by construction (exh) / distinct canonical JSON of the pair "
             "(rand, 64-bit hash, unioned over shards). "
-            "leg big (rapid): lhs = 0..n-1 (optionally mod 2/7/100/1000) for n in {1100, 2050, 4097, 4100, 4200, 5000}, rhs = lhs with up to 6 deletions and 6 insertions (one of them near the start), either role; the same validity / span / canonical-form checks, minimality against a two-row LCS-length DP; non-trivial iff the input has repeats.",
-    "assumptions": COMMON_ASSUME + ["elements are ints compared with ==; EditScript is generic in T but its control flow "
+            "leg big (rapid): lhs = 0..n-1 (optionally mod 2/7/100/1000) for n in {1100, 2050, 4097, 4100, 4200, 5000}, rhs = lhs with up to 6 deletions and 6 insertions (one of them near the start), either role; the same validity / span / canonical-form checks, minimality against a two-row LCS-length DP; non-trivial iff the input has repeats. "
+            "ELEMENT KINDS: half of the cases (random legs) and half of the indices (exhaustive legs, dealt by a hash of the case index) keep int elements; the others instantiate the functions with string, int16, an 88-byte struct, *Cell pointers, interface elements holding pointers, float64 (zeros of either sign, which are == and must be treated as equal), a word-table string kind containing 32-bit checksum-collision pairs (FNV-1, FNV-1a, Adler-32) and, optionally, strings that share storage as prefixes of one another, and []byte for the ...Func variants. Elements carry an identity besides their value, so inputs with the same values but different elements (distinct pointers to deeply equal pointees) are different inputs for ==, and every identity/aliasing check runs on the instantiated slices.",
+    "assumptions": COMMON_ASSUME + ["element kinds as listed in the rule; EditScript is generic in T but its control flow "
                                     "does not depend on T"],
 }
 
@@ -565,7 +570,8 @@ PROPS["C12"] = {
             "(as|bs, bs|as, as|gap|bs) of one buffer, so that a result built in an argument's spare capacity shows up "
             "as a modified input. NON-TRIVIAL iff the pair has >= 2 distinct longest "
             "common subsequences (as sequences of classes). Distinct = distinct by construction (exhaustive legs) / "
-            "distinct canonical JSON of the case (rapid legs, 64-bit hash, unioned over shards).",
+            "distinct canonical JSON of the case (rapid legs, 64-bit hash, unioned over shards). "
+            "ELEMENT KINDS: half of the cases (random legs) and half of the indices (exhaustive legs, dealt by a hash of the case index) keep int elements; the others instantiate the functions with string, int16, an 88-byte struct, *Cell pointers, interface elements holding pointers, float64 (zeros of either sign, which are == and must be treated as equal), a word-table string kind containing 32-bit checksum-collision pairs (FNV-1, FNV-1a, Adler-32) and, optionally, strings that share storage as prefixes of one another, and []byte for the ...Func variants. Elements carry an identity besides their value, so inputs with the same values but different elements (distinct pointers to deeply equal pointees) are different inputs for ==, and every identity/aliasing check runs on the instantiated slices. LIS/LNDS natural order also runs on string, int16 and float64 stretched over the kind's whole range; with NaNs in a float64 input only this is asserted: no panic, input unchanged, the result is a bitwise subsequence sorted under cmp.Compare, with a length between the optimum of the non-NaN elements and the optimum under cmp.Compare.",
     "assumptions": COMMON_ASSUME + ["comparison functions are total preorders on ints (natural, reversed, v>>1); the "
                                     "equality passed to LCSFunc is an equivalence relation"],
 }
@@ -598,8 +604,9 @@ PROPS["C17"] = {
             "len+1}; Head/Tail n in {0,1,len-1,len,len+1}; At/PtrAt i in {-len-1,-len,-1,0,len-1,len}; Stripe i >= "
             "max-1, no rows, or a ragged column), the slice is empty, gcd(k, n) > 1 for Rotate, and for Partition: "
             "empty / all kept / none kept / at least one kept element behind a dropped one (a swap is needed). Distinct "
-            "= distinct by construction (exh) / distinct canonical JSON of the call (rand).",
-    "assumptions": COMMON_ASSUME + ["elements are ints; Head/Tail/Stripe are only called with non-negative arguments "
+            "= distinct by construction (exh) / distinct canonical JSON of the call (rand). "
+            "ELEMENT KINDS: the same calls are made with string, int16, 1-byte, 88-byte struct, pointer, interface, float64 and []byte elements (kinds dealt by case index / drawn for half of the random cases); Partition additionally gets equal-looking but distinguishable elements (+0/-0 with a sign predicate, distinct pointers to deeply equal pointees with an identity predicate) and must still return exactly the elements the predicate accepts. Rotate/At/PtrAt arguments include math.MinInt/MaxInt.",
+    "assumptions": COMMON_ASSUME + ["element kinds as listed in the rule; Head/Tail/Stripe are only called with non-negative arguments "
                                     "(negative ones are not documented)"],
 }
 
